@@ -276,6 +276,10 @@ class Bunch:
 def prepare_dist(dist):
     if not isinstance(dist._sample_space, dit.samplespace.CartesianProduct):
         dist = dit.expanded_samplespace(dist, union=True)
+    else:
+        # Work on a copy: the caller's distribution must not be densified
+        # or re-based as a side effect.
+        dist = dist.copy()
 
     if not dist.is_dense():
         if len(dist._sample_space) > 1e4:  # pragma: no cover
